@@ -651,19 +651,14 @@ theorem wf_vector_inv (u : Bytes → Bool) (elt : CqlTy) (dim : Nat) (v : CqlVal
     v = .empty ∨ ∃ vs, v = .vector vs ∧ vs.length = dim ∧ 0 < dim ∧ (∀ x, x ∈ vs → wfVal u elt x = true) ∧
       (match elt.sizeForVector with
        | some _ => ∀ x, x ∈ vs → isEmptyVal x = false
-       | none => ∀ l, vs.getLast? = some l → zeroLenBody l = false) := by
+       | none => True) := by
   cases v <;> simp [wfVal] at h ⊢
   rename_i vs
   obtain ⟨⟨⟨h1, h2⟩, h3⟩, h4⟩ := h
   refine ⟨h1, h2, h3, ?_⟩
   cases hs : elt.sizeForVector with
   | some sz => rw [hs] at h4; simpa using h4
-  | none =>
-    rw [hs] at h4
-    simp only at h4 ⊢
-    intro l hl
-    rw [hl] at h4
-    simpa using h4
+  | none => trivial
 
 theorem varElemSpec_ok (g : CqlVal → Except SerErr Bytes) (v : CqlVal) (c : Bytes)
     (h : varElemSpec g v = .ok c) : ∃ eb, g v = .ok eb ∧ c = uvintEnc (BitVec.ofNat 64 eb.length) ++ eb := by
@@ -680,42 +675,26 @@ theorem uvintEnc_ne_nil (v : BitVec 64) (r : Bytes) : uvintEnc v ++ r ≠ [] := 
 
 theorem decVecVar_rt (u : Bytes → Bool) (elt : CqlTy) (ih : RT u elt) :
     ∀ (vs : List CqlVal) (cells : Bytes), (∀ x, x ∈ vs → wfVal u elt x = true) →
-      (∀ l, vs.getLast? = some l → zeroLenBody l = false) →
       concatEnc (varElemSpec (fun v => encSpec elt v false)) vs = .ok cells → cells.length < 2 ^ 64 →
       decVecVar (fun b => decVal u elt b) vs.length cells = .ok (vs.map (fun x => pad elt x)) ∧
       (vs ≠ [] → cells ≠ []) := by
   intro vs
   induction vs with
-  | nil => intro cells _ _ h _; simp [decVecVar]
+  | nil => intro cells _ h _; simp [decVecVar]
   | cons v vs ihs =>
-    intro cells hw hlast h hlt
+    intro cells hw h hlt
     obtain ⟨c, r, hc, hr, rfl⟩ := concatEnc_cons_ok _ v vs cells h
     obtain ⟨eb, heb, rfl⟩ := varElemSpec_ok _ v c hc
     have hwv := hw v List.mem_cons_self
     have hl : eb.length < 2 ^ 64 ∧ r.length < 2 ^ 64 := by
       simp only [List.length_append] at hlt; omega
-    obtain ⟨hdec, hz⟩ := ih v eb hwv heb hl.1
-    have hlast' : ∀ l, vs.getLast? = some l → zeroLenBody l = false := by
-      intro l hl'
-      apply hlast l
-      cases vs with
-      | nil => simp at hl'
-      | cons a vs' => simpa [List.getLast?_cons_cons] using hl'
-    obtain ⟨ih1, ih2⟩ := ihs r (fun x hx => hw x (List.mem_cons_of_mem _ hx)) hlast' hr hl.2
+    obtain ⟨hdec, _⟩ := ih v eb hwv heb hl.1
+    obtain ⟨ih1, _⟩ := ihs r (fun x hx => hw x (List.mem_cons_of_mem _ hx)) hr hl.2
     refine ⟨?_, fun _ => ?_⟩
-    · have hne : (eb ++ r).isEmpty = false := by
-        cases vs with
-        | nil =>
-          have hzl := hlast v (by simp)
-          have : eb ≠ [] := fun e => by rw [hz e] at hzl; cases hzl
-          cases eb with
-          | nil => exact absurd rfl this
-          | cons a l => simp
-        | cons a vs' =>
-          have := ih2 (by simp)
-          cases r with
-          | nil => exact absurd rfl this
-          | cons b l => simp
+    · have hne : ((eb ++ r).isEmpty && eb.length != 0) = false := by
+        cases eb with
+        | nil => simp
+        | cons a l => simp
       have htn : (BitVec.ofNat 64 eb.length).toNat = eb.length := by
         simp [BitVec.toNat_ofNat, Nat.mod_eq_of_lt hl.1]
       have hlen : ¬ ((eb ++ r).length < eb.length) := by simp [List.length_append]
@@ -813,7 +792,7 @@ theorem decVecFixed_rt (u : Bytes → Bool) (elt : CqlTy) (sz : Nat) (hs : elt.s
     obtain ⟨ih1, _⟩ := ihs r (fun x hx => hw x (List.mem_cons_of_mem _ hx))
       (fun x hx => hne x (List.mem_cons_of_mem _ hx)) hr hl.2
     have hcne : c ≠ [] := by intro e; rw [e] at hlen; simp at hlen; omega
-    have hne' : (c ++ r).isEmpty = false := by
+    have hne' : ((c ++ r).isEmpty && sz != 0) = false := by
       cases c with
       | nil => exact absurd rfl hcne
       | cons a l => simp
@@ -973,7 +952,7 @@ theorem rt (u : Bytes → Bool) : ∀ t : CqlTy, RT u t
           rw [hc] at he
           simp only [frame] at he
           cases he
-          obtain ⟨h1, h2⟩ := decVecVar_rt u elt (rt u elt) vs body hall hextra hc hlt
+          obtain ⟨h1, h2⟩ := decVecVar_rt u elt (rt u elt) vs body hall hc hlt
           have h3 := h2 hvne
           refine ⟨?_, fun h => absurd h h3⟩
           rw [decVal]
